@@ -2,7 +2,8 @@
    [walk tol fuel f] follows every structure reachable from the superblock of the file [f] and returns the visited
    extents (start, end, kind), a summary of the tree and the deviations it tolerated; tools/props/c05walk.py compares it
    with the independent Python walker on the bytes of files written by the library. *)
-From HV Require Import Base.Prelude Base.Outcome Base.Bytes Spec.Parse Spec.Walk Model.Wellformed Proofs.Walk.
+From HV Require Import Base.Prelude Base.Outcome Base.Bytes Spec.Parse Spec.FormatMsg Spec.Walk Model.Wellformed Model.RefWalkTie
+  Model.DenseLinkMsg Proofs.Walk Proofs.WalkDenseExamples Proofs.DenseLinkMsg.
 
 (* (1) For ALL byte strings, tolerances and fuels: every extent a successful walk returns is non-empty and ends inside
    the file - extents enter the result only through the checked [add_ext]. *)
@@ -37,3 +38,77 @@ Theorem C05_walk_accepts_disjoint : forall fuel f, walk_ok fuel f = true ->
     ForallOrdPairs disjoint (plain (wr_extents r)).
 Proof. exact walk_ok_sound. Qed.
 Print Assumptions C05_walk_accepts_disjoint.
+
+(* (3') what Model/WalkJudgeTie.v evaluates for the files the Coq walker judges alone (one walk instead of two): given the result of the
+   tolerant walk, [walk_ok] is [extents_ok] of its extents. *)
+Theorem C05_walk_ok_of_result : forall fuel f r, walk wtolerant fuel f = Ok r ->
+  walk_ok fuel f = extents_ok (blen f) (wr_eof r) (plain (wr_extents r)).
+Proof. exact walk_ok_of_result. Qed.
+Print Assumptions C05_walk_ok_of_result.
+
+(* (4) New-style groups as the writer stores them (CreateDenseGroup / CreateGroupWithLinks with more than 8 links), on the complete
+   bytes of the witness file [dense_witness] (Proofs/WalkDenseExamples.v: sb = 2; mkds /a; mkdense /dg {x -> /a, yy -> /a}).
+   The tolerant walk accepts the file, the extents are well-formed, and the dense group lists exactly its two links, both leading to
+   the object header of /a (address 2199): the links ARE stored and an independent decoder finds them - once it tolerates the four
+   deviations below.  (The library's own reader does not list them: findings C03-dense-group-links-not-read / C06-dense-links-not-read.) *)
+Theorem C05_dense_group_witness_decodes :
+  match walk wtolerant default_fuel dense_witness with
+  | Ok r => extents_ok (blen dense_witness) (wr_eof r) (plain (wr_extents r)) = true /\
+            summary_of r = [(unhex "2f6467", [(0, unhex "7979"); (0, unhex "78")], [2199; 2199]);
+                            (unhex "2f61", [], []);
+                            (unhex "2f", [(0, unhex "61"); (0, unhex "6467")], [2199; 531029])] /\
+            nodup N.eq_dec (map wtag_code (wr_tags r)) = [114; 111; 112; 108; 113; 13; 12; 10; 11; 19; 3; 105; 17; 2; 1]
+  | _ => False
+  end.
+Proof. exact dense_witness_tolerant. Qed.
+Print Assumptions C05_dense_group_witness_decodes.
+
+(* The four deviations of internal/writer/densegroup_writer.go.  Each statement: the walk that tolerates EVERY deviation but this one
+   rejects the witness with this deviation as the reason (reason code 200 + tag code), i.e. the file does not conform to the
+   specification on this point and on nothing the other listed deviations do not cover. *)
+(* a group's object header carries a (scalar, version 1) dataspace message *)
+Theorem C05_group_dataspace_msg_refuted : walk_code (tol_all_but 111) default_fuel dense_witness = 311.
+Proof. exact dense_witness_needs_group_dataspace_msg. Qed.
+Print Assumptions C05_group_dataspace_msg_refuted.
+(* the link messages in the heap are: version | link type | flags | character set | minimal-width name length | name | address -
+   read per specification (version | flags | ... ) the byte 0 is the flags byte and the byte 4 the length of the name *)
+Theorem C05_dense_link_private_layout_refuted : walk_code (tol_all_but 112) default_fuel dense_witness = 312.
+Proof. exact dense_witness_needs_link_private_layout. Qed.
+Print Assumptions C05_dense_link_private_layout_refuted.
+(* the heap's IDs are 8 bytes long (heap header), the name index records (type 5: hash (4) | ID (7)) hold their first 7 bytes *)
+Theorem C05_btree2_link_id_truncated_refuted : walk_code (tol_all_but 113) default_fuel dense_witness = 313.
+Proof. exact dense_witness_needs_link_id_truncated. Qed.
+Print Assumptions C05_btree2_link_id_truncated_refuted.
+(* /a has three hard links (one in the root group, two in /dg) and reference count 1 *)
+Theorem C05_refcount_ignores_dense_links_refuted : walk_code (tol_all_but 114) default_fuel dense_witness = 314.
+Proof. exact dense_witness_needs_refcount_ignores_dense_links. Qed.
+Print Assumptions C05_refcount_ignores_dense_links_refuted.
+
+(* (5) The densely stored link message, UNIVERSALLY over link names of 1 .. 255 bytes and target addresses (size of offsets 8):
+   [enc_dense_link] is the transcription of internal/writer/densegroup_writer.go createLinkMessage (Model/DenseLinkMsg.v; tied to the
+   library on every run by tools/props/c05.py dense_link_tie: the model's bytes occur in the written file for every link the Coq walker
+   resolves).
+   (a) Read per specification (IV.A.2.g: version | flags | ... | length of name | name | address) the message is never the link that
+       was stored: the decoder rejects it, except for names of exactly 2 bytes, where it returns the 4-byte name 00 02 n0 n1. *)
+Theorem C05_dense_link_spec_misread : forall tol name addr, 0 < blen name -> blen name < 256 ->
+  match spec_dec_link tol 8 false (enc_dense_link name addr 8) with
+  | Ok (l, _) => blen name = 2 /\ ls_name l = 0 :: 2 :: name
+  | _ => True
+  end.
+Proof. exact spec_dec_enc. Qed.
+Print Assumptions C05_dense_link_spec_misread.
+
+Theorem C05_dense_link_spec_never_the_stored_link : forall tol name addr l tg, 0 < blen name -> blen name < 256 ->
+  spec_dec_link tol 8 false (enc_dense_link name addr 8) = Ok (l, tg) -> ls_name l <> name.
+Proof. exact spec_never_the_stored_link. Qed.
+Print Assumptions C05_dense_link_spec_never_the_stored_link.
+
+(* (b) The walker's decoder of the private layout (what the deviation X_dense_link_private_layout tolerates) inverts the writer: the
+       link IS recoverable, name and target, by a decoder that knows the layout. *)
+Theorem C05_dense_link_private_decoder_inverts_writer : forall c name addr,
+  cO c = 8%nat -> 0 < blen name -> blen name < 256 -> addr < 256 ^ 8 ->
+  dec_link_private c (enc_dense_link name addr 8) =
+    Ok {| ls_flags := 0; ls_corder := None; ls_cset := 0; ls_name := name; ls_value := LHard addr |}.
+Proof. exact dec_private_enc. Qed.
+Print Assumptions C05_dense_link_private_decoder_inverts_writer.
+(* the hypotheses are satisfiable: Proofs/DenseLinkMsg.v dense_link_example (the link "x" -> 2199 of the witness file) *)
